@@ -567,8 +567,9 @@ def evaluate(groups, jobs=None):
     from concurrent.futures import ProcessPoolExecutor
     jobs = jobs or min(K.JOBS, 8)
     if len(groups) > 1 and jobs > 1:
-        with ProcessPoolExecutor(max_workers=jobs) as ex:
-            per = list(ex.map(run_group, groups, chunksize=max(1, len(groups) // (jobs * 4))))
+        import cobra.summary  # noqa: F401
+        per = [v if k == "ok" else [] for k, v in
+               K.map_isolated(run_group, groups, chunk=max(1, len(groups) // (jobs * 4)), workers=jobs)]
     else:
         per = [run_group(g) for g in groups]
     obs = [o for lst in per for o in lst]
